@@ -1,3 +1,4 @@
 import RaftProps.C11
 import RaftProps.C12
 import RaftProps.C18
+import RaftProps.C14
